@@ -104,7 +104,12 @@ func labelFileCase(kind string, lines []string, longLine int, longAt int) string
 		}
 	}
 	p := filepath.Join(tmpDir(), "labels.txt")
-	os.WriteFile(p, []byte(sb.String()), 0600)
+	text := sb.String()
+	if len(lines)%2 == 0 {
+		// the last line of a file need not end with a line feed: the same definitions
+		text = strings.TrimSuffix(text, "\n")
+	}
+	os.WriteFile(p, []byte(text), 0600)
 	var asm assembler.Assembler
 	if kind == "64tass" {
 		asm = assembler.NewTass64("", "", "", "")
